@@ -34,6 +34,7 @@ fn main() {
     let mut rk: Option<String> = None;
     let mut rd: Option<String> = None;
     let mut rc = String::new();
+    let mut escalate = false;
     let mut i = 2;
     while i < args.len() {
         let a = args[i].as_str();
@@ -73,6 +74,10 @@ fn main() {
                 rd = Some(need(v));
                 i += 2;
             }
+            "--escalate" => {
+                escalate = true;
+                i += 1;
+            }
             "--replay-clause" => {
                 rc = need(v);
                 i += 2;
@@ -80,7 +85,7 @@ fn main() {
             _ => usage(),
         }
     }
-    let ctx = Ctx { tier, seed, leg, threads };
+    let ctx = Ctx { tier, seed, leg, threads, escalate };
     drive::install_silent_panic_hook();
     let t0 = Instant::now();
     let rep: Rep = if let Some(k) = rk {
